@@ -64,7 +64,7 @@ type fieldSpec struct {
 
 var supported = []string{"bytes", "string", "secret", "binval", "binptr", "json-struct", "json-map", "json-int"}
 var unsupported = []string{"int", "strings", "strptr", "strmap", "bool", "empty-tag", "empty-tag-json", "arr8", "arrptr", "any", "float", "rune-slice", "empty-tag-json-str", "empty-tag-json-bytes", "empty-tag-other-str"}
-var untagged = []string{"u-int", "u-string", "u-bytes", "u-intptr", "u-secret"}
+var untagged = []string{"u-int", "u-string", "u-bytes", "u-intptr", "u-secret", "u-binptr", "u-timeptr"}
 
 func typeOf(kind string) reflect.Type {
 	switch kind {
@@ -106,6 +106,10 @@ func typeOf(kind string) reflect.Type {
 		return reflect.TypeOf([]rune(nil))
 	case "u-intptr":
 		return reflect.TypeOf((*int)(nil))
+	case "u-binptr": // untagged, nil, and of a type that could unmarshal itself: none of the plumbing's business
+		return reflect.TypeOf((*BinVal)(nil))
+	case "u-timeptr":
+		return reflect.TypeOf((*time.Time)(nil))
 	}
 	panic(kind)
 }
@@ -187,9 +191,10 @@ func TestC20(t *testing.T) {
 		taggedEmbedded(r)
 		severalStructs(r)
 		hangingField(r)
+		otherStore(r)
 		dualUnmarshalers(r)
 	}
-	r.Require("applies_with_a_hanging_field", "dual_unmarshaler_fields", "stores_over_several_structs", "tagged_embedded_fields", "populated_structs", "rejected_shapes", "rejected_arguments", "failing_field_cases", "bytes_fields_mutated", "secret_fields_followed_poll", "shared_secret_fields", "embedded_structs", "untagged_fields_checked", "second_applies")
+	r.Require("applies_to_another_store", "applies_with_a_hanging_field", "dual_unmarshaler_fields", "stores_over_several_structs", "tagged_embedded_fields", "populated_structs", "rejected_shapes", "rejected_arguments", "failing_field_cases", "bytes_fields_mutated", "secret_fields_followed_poll", "shared_secret_fields", "embedded_structs", "untagged_fields_checked", "second_applies")
 	r.Rule("struct types generated at run time: 1-8 fields in random order from {[]byte, string, setec.Secret, value/pointer BinaryUnmarshaler, ',json' struct/map/int} + unsupported {int, []string, *string, map[string]string, bool, empty tag name} + untagged fields of 5 kinds with sentinel contents, optionally one embedded predeclared struct; prefixes {'', a, a/b, dev/prog}; several fields may name the same secret; scripted failing fields (bad JSON, UnmarshalBinary error); via StoreConfig.Structs and via ParseFields+Apply. Distinct = (entry point, sorted set of field kinds, has failing field, prefix)")
 }
 
@@ -545,6 +550,8 @@ func runCase(r *evid.Run, s shape) {
 			okv = fv.Interface().(*int) == &seven && seven == 7
 		case "u-secret":
 			okv = string(fv.Interface().(setec.Secret).Get()) == "static"
+		case "u-binptr", "u-timeptr":
+			okv = fv.IsNil()
 		}
 		if !okv {
 			fail("untagged-field-changed", fmt.Sprintf("untagged field F%d (%s) was modified", i, f.Kind))
@@ -1026,4 +1033,67 @@ func dualUnmarshalers(r *evid.Run) {
 			r.Violation("field-value-wrong", -1, fmt.Sprintf("via %s: D filled via %q, P via %v, T=%v (want %v), IP=%v (want %v)", entry, v.D.Via, v.P, v.T, when, v.IP, ip), nil)
 		}
 	}
+}
+
+type allKinds struct {
+	B []byte       `setec:"b"`
+	S string       `setec:"s"`
+	H setec.Secret `setec:"h"`
+	U BinVal       `setec:"u"`
+	J JS           `setec:"j,json"`
+}
+
+// otherStore: one parsed Fields value applied to a store, then to ANOTHER store (the first was closed; a
+// test double was swapped for the real thing; a tenant switched): every field holds what the store it was last
+// applied to serves.
+func otherStore(r *evid.Run) {
+	mk := func(gen int) (*setec.Store, *fakesvc.Service) {
+		svc := fakesvc.New()
+		for _, n := range []string{"b", "s", "h", "u"} {
+			svc.Set("p/"+n, uint32(gen), []byte(fmt.Sprintf("%s-of-generation-%d", n, gen)))
+		}
+		svc.Set("p/j", uint32(gen), []byte(fmt.Sprintf(`{"a":%d,"b":"g%d"}`, gen, gen)))
+		st, err := setec.NewStore(context.Background(), setec.StoreConfig{Client: svc, Secrets: []string{"p/b", "p/s", "p/h", "p/u", "p/j"}, PollInterval: -1, Logf: func(string, ...any) {}})
+		if err != nil {
+			panic(err)
+		}
+		return st, svc
+	}
+	var v allKinds
+	f, err := setec.ParseFields(&v, "p")
+	if err != nil {
+		r.Violation("spurious-error", -1, err.Error(), nil)
+		return
+	}
+	check := func(gen int, stage string) bool {
+		r.Eval(1)
+		r.Count("applies_to_another_store", 1)
+		ok := string(v.B) == fmt.Sprintf("b-of-generation-%d", gen) && v.S == fmt.Sprintf("s-of-generation-%d", gen) && v.H != nil && string(v.H.Get()) == fmt.Sprintf("h-of-generation-%d", gen) &&
+			string(v.U.Got) == fmt.Sprintf("u-of-generation-%d", gen) && v.J == JS{A: gen, B: fmt.Sprintf("g%d", gen)}
+		if !ok {
+			hv := ""
+			if v.H != nil {
+				hv = string(v.H.Get())
+			}
+			r.Violation("field-value-wrong", -1, fmt.Sprintf("%s: the fields hold B=%q S=%q H=%q U=%q J=%+v, the store they were applied to last serves generation %d", stage, v.B, v.S, hv, v.U.Got, v.J, gen), nil)
+		}
+		return ok
+	}
+	a, _ := mk(2)
+	if err := f.Apply(context.Background(), a); err != nil || !check(2, "applied to store A") {
+		return
+	}
+	a.Close()
+	b, svcB := mk(3)
+	if err := f.Apply(context.Background(), b); err != nil || !check(3, "applied to store A, then to store B") {
+		return
+	}
+	// and B moves on: the Secret field is live on B
+	svcB.Set("p/h", 4, []byte("h-of-generation-4"))
+	b.Refresh(context.Background())
+	if v.H == nil || string(v.H.Get()) != "h-of-generation-4" {
+		r.Violation("secret-field-not-live", -1, fmt.Sprintf("after applying to store B and a poll of B the Secret field yields %q", v.H.Get()), nil)
+	}
+	b.Close()
+	r.Distinct("apply to another store")
 }
